@@ -378,10 +378,21 @@ func classify(c *conversation, frames []convFrame) (verdicts []streamVerdict, tu
 		}
 		perID[f.StreamId] = append(perID[f.StreamId], f)
 	}
+	// a tag that ends up on more than one new_stream frame (duplicated and retargeted by
+	// multi-mutations) cannot be judged per tag
+	tagNews := map[string]int{}
+	for _, cf := range frames {
+		if ns, ok := cf.f.Frame.(*tunnelpb.ClientToServer_NewStream); ok {
+			if v := ns.NewStream.GetRequestHeaders().GetMd()["x-rpc"]; v != nil && len(v.Val) > 0 {
+				tagNews[v.Val[0]]++
+			}
+		}
+	}
 	for _, s := range c.streams {
 		got := perID[s.id]
 		v := streamVerdict{class: "perturbed"}
 		switch {
+		case tagNews[s.tag] > 1:
 		case len(got) == 0:
 			v.class = "absent"
 		case sameFrames(got, s.base):
